@@ -189,7 +189,7 @@ func GenFileScript(r *Rng, hist map[string]int) []string {
 			if r.Chance(1, 3) || i == nrec-1 {
 				out = append(out, "F flush")
 				staging = false
-				if r.Chance(1, 2) {
+				if r.Chance(9, 10) {
 					out = append(out, "F getall") // reads by position between the writes (whatever a reader caches must follow the writer)
 					hist["op_reads_between_writes"]++
 				}
@@ -197,7 +197,7 @@ func GenFileScript(r *Rng, hist map[string]int) []string {
 		} else {
 			out = append(out, fmt.Sprintf("F put %d %s %s %d", typ, ktok, vtok, batch))
 			hist["op_put"]++
-			if r.Chance(1, 2) {
+			if r.Chance(3, 4) {
 				out = append(out, "F getall")
 				hist["op_reads_between_writes"]++
 			}
